@@ -177,4 +177,196 @@ theorem findSome?_unique {α β : Type} (g : α → Option β) (xs : List α) (v
       · exact ⟨x, hmem, hv⟩
     · simp [h]
 
+/-! ### `AddTypes` of a type set -/
+
+theorem define_ps (s : Sys) (l : Nat) (n : Name) (v : V) : (define s l n v).1.ps = s.ps := by
+  have := step_ps s (.define l n v); simpa only [step] using this
+
+/-- a definition touches one binding: the one of the loader and the name it addresses -/
+theorem define_bound_frame (s : Sys) (l : Nat) (n : Name) (v : V) (l' : Nat) (k' : Key) (h : l' ≠ l ∨ k' ≠ canon n) :
+    bound (define s l n v).1 l' k' = bound s l' k' := by
+  unfold define
+  split
+  · rename_i es' heq
+    have hes : es' = (setEntry (s.ents l) (canon n) (some v)).1 := by rw [heq]
+    subst hes
+    simp only [bound, ents_setEnts]
+    split
+    · rename_i hc
+      obtain ⟨rfl, _⟩ := hc
+      rcases h with h | h
+      · exact absurd rfl h
+      · rw [setEntry_lk_other h]
+    · rfl
+  · rfl
+  · rfl
+  · rfl
+
+theorem bound_define_mono (s : Sys) (l : Nat) (n : Name) (v : V) (l' : Nat) (k : Key) (w : V)
+    (h : bound s l' k = some w) : bound (define s l n v).1 l' k = some w :=
+  bound_step_mono s (.define l n v) l' k w h
+
+/-- a definition of another name changes no resolution of this one -/
+theorem resolve_define_other (s : Sys) (l : Nat) (n : Name) (v : V) (l' : Nat) (k' : Key) (h : k' ≠ canon n) :
+    resolve (define s l n v).1 l' k' = resolve s l' k' := by
+  unfold resolve
+  rw [define_ps]
+  congr 1
+  funext a
+  exact define_bound_frame s l n v a k' (Or.inr h)
+
+/-- a definition in the loader itself changes no resolution through it that has a value -/
+theorem resolve_define_stable (s : Sys) (l : Nat) (n : Name) (v : V) (k : Key) (w : V)
+    (hshape : l ∉ ancestors s.ps l) (h : resolve s l k = some w) : resolve (define s l n v).1 l k = some w := by
+  unfold resolve at *
+  rw [define_ps]
+  rw [chain_eq, List.reverse_cons] at h ⊢
+  apply findSome?_stable (fun a => bound s a k) (fun a => bound (define s l n v).1 a k) _ _ w h
+  · intro x _ u hu; exact bound_define_mono s l n v x k u hu
+  · intro x hx hn
+    have hxl : x ≠ l := by
+      intro e; subst e; exact hshape (List.mem_reverse.mp hx)
+    rw [define_bound_frame s l n v x k (Or.inl hxl)]; exact hn
+
+/-- defining a name that does not resolve binds it, and it resolves to the value defined -/
+theorem resolve_define_new (s : Sys) (l : Nat) (n : Name) (v : V) (hl : l < s.es.length)
+    (h : resolve s l (canon n) = none) :
+    (define s l n v).2 = .ok ∧ resolve (define s l n v).1 l (canon n) = some v := by
+  have hall : ∀ x ∈ chain s.ps l, bound s x (canon n) = none := by
+    intro x hx
+    unfold resolve at h
+    rw [List.findSome?_eq_none_iff] at h
+    exact h x (List.mem_reverse.mpr hx)
+  have hmem : l ∈ chain s.ps l := by rw [chain_eq]; simp
+  obtain ⟨d1, d2, d3⟩ := define_unbound s l n v hl (hall l hmem)
+  refine ⟨d1, ?_⟩
+  unfold resolve
+  rw [define_ps]
+  apply findSome?_unique
+  · intro x hx
+    by_cases hxl : x = l
+    · subst hxl; exact Or.inr d2
+    · left; rw [d3 x (canon n) (Or.inl hxl)]; exact hall x (List.mem_reverse.mp hx)
+  · exact ⟨l, List.mem_reverse.mpr hmem, d2⟩
+
+/-- `resolveTypeSet` on a chain without dependency loader, one member at a time, in terms of the specification `resolve` -/
+theorem addMembers_cons_plain (dps : List (Option Mods)) (s : Sys) (l : Nat) (ts m : String) (k : Nat)
+    (r : List (String × Nat)) (hd : ∀ a ∈ chain s.ps l, dps.getD a none = none) :
+    addMembers dps s l ts ((m, k) :: r) =
+      if (resolve s l (canon (memberName ts m))).isSome then addMembers dps s l ts r
+      else if (define s l (memberName ts m) (memberVal ts m k)).2 = .ok then
+        addMembers dps (define s l (memberName ts m) (memberVal ts m k)).1 l ts r
+      else define s l (memberName ts m) (memberVal ts m k) := by
+  simp only [addMembers]
+  rw [loadEntryD_plain dps s _ _ hd, resolve_eq_join]
+  cases hc : loadEntryC s.es (chain s.ps l) (canon (memberName ts m)) with
+  | none =>
+    simp only [Option.join_none, Option.isSome_none, Bool.false_eq_true, if_false]
+    generalize define s l (memberName ts m) (memberVal ts m k) = d
+    obtain ⟨s2, a⟩ := d
+    cases a <;> simp
+  | some o =>
+    cases o with
+    | none =>
+      simp only [Option.join_some, Option.isSome_none, Bool.false_eq_true, if_false]
+      generalize define s l (memberName ts m) (memberVal ts m k) = d
+      obtain ⟨s2, a⟩ := d
+      cases a <;> simp
+    | some w => simp
+
+theorem bound_addMembers_mono (dps : List (Option Mods)) (s : Sys) (l : Nat) (ts : String) (ms : List (String × Nat))
+    (l' : Nat) (k : Key) (w : V) (h : bound s l' k = some w) : bound (addMembers dps s l ts ms).1 l' k = some w := by
+  induction ms generalizing s with
+  | nil => exact h
+  | cons hd r ih =>
+    obtain ⟨m, j⟩ := hd
+    simp only [addMembers]
+    have h1 := loadEntryD_bound_mono dps s (chain s.ps l) (memberName ts m) l' k w h
+    generalize loadEntryD dps s (chain s.ps l) (memberName ts m) = le at h1
+    obtain ⟨s1, e⟩ := le
+    have hdef := bound_define_mono s1 l (memberName ts m) (memberVal ts m j) l' k w h1
+    cases e with
+    | bad => exact h1
+    | ok o =>
+      cases o with
+      | none =>
+        simp only
+        generalize define s1 l (memberName ts m) (memberVal ts m j) = d at hdef
+        obtain ⟨s2, a⟩ := d
+        cases a <;> first | exact ih _ hdef | exact hdef
+      | some o2 =>
+        cases o2 with
+        | some _ => exact ih _ h1
+        | none =>
+          simp only
+          generalize define s1 l (memberName ts m) (memberVal ts m j) = d at hdef
+          obtain ⟨s2, a⟩ := d
+          cases a <;> first | exact ih _ hdef | exact hdef
+
+theorem bound_addTypeSet_mono (dps : List (Option Mods)) (s : Sys) (l : Nat) (ts : String) (ver : Nat)
+    (ms : List (String × Nat)) (l' : Nat) (k : Key) (w : V) (h : bound s l' k = some w) :
+    bound (addTypeSet dps s l ts ver ms).1 l' k = some w := by
+  unfold addTypeSet
+  have h1 := bound_addMembers_mono dps s l ts ms l' k w h
+  generalize addMembers dps s l ts ms = r at h1
+  obtain ⟨s1, a⟩ := r
+  cases a <;> first | exact bound_define_mono s1 l _ _ l' k w h1 | exact h1
+
+/-- what `resolveTypeSet` leaves behind on a hierarchy of plain loaders: every member resolves through the loader — to what
+    it resolved to before, otherwise to the member — and nothing was rejected -/
+theorem addMembers_spec (dps : List (Option Mods)) (s : Sys) (l : Nat) (ts : String) (ms : List (String × Nat))
+    (hd : ∀ a ∈ chain s.ps l, dps.getD a none = none) (hshape : l ∉ ancestors s.ps l) (hl : l < s.es.length)
+    (hnd : (ms.map fun m => canon (memberName ts m.1)).Nodup) :
+    (addMembers dps s l ts ms).2 = .ok ∧ (addMembers dps s l ts ms).1.ps = s.ps ∧
+    (addMembers dps s l ts ms).1.es.length = s.es.length ∧
+    (∀ k', k' ∉ ms.map (fun m => canon (memberName ts m.1)) →
+      resolve (addMembers dps s l ts ms).1 l k' = resolve s l k') ∧
+    ∀ m ∈ ms, resolve (addMembers dps s l ts ms).1 l (canon (memberName ts m.1)) =
+      some ((resolve s l (canon (memberName ts m.1))).getD (memberVal ts m.1 m.2)) := by
+  induction ms generalizing s with
+  | nil => exact ⟨rfl, rfl, rfl, fun _ _ => rfl, fun m hm => by cases hm⟩
+  | cons hd0 r ih =>
+    obtain ⟨m, j⟩ := hd0
+    simp only [List.map_cons, List.nodup_cons] at hnd
+    obtain ⟨hnotin, hnd'⟩ := hnd
+    rw [addMembers_cons_plain dps s l ts m j r hd]
+    by_cases hres : (resolve s l (canon (memberName ts m))).isSome = true
+    · -- already known: skipped
+      simp only [hres, if_true]
+      obtain ⟨i1, i2, i3, i4, i5⟩ := ih s hd hshape hl hnd'
+      refine ⟨i1, i2, i3, ?_, ?_⟩
+      · intro k' hk'
+        simp only [List.map_cons, List.mem_cons, not_or] at hk'
+        exact i4 k' hk'.2
+      · intro x hx
+        rcases List.mem_cons.mp hx with rfl | hx
+        · simp only
+          rw [i4 _ hnotin]
+          obtain ⟨w, hw⟩ := Option.isSome_iff_exists.mp hres
+          rw [hw]; rfl
+        · exact i5 x hx
+    · -- not known: defined, accepted
+      have hnone : resolve s l (canon (memberName ts m)) = none := by
+        cases h : resolve s l (canon (memberName ts m)) with
+        | none => rfl
+        | some w => rw [h] at hres; simp at hres
+      obtain ⟨dok, dres⟩ := resolve_define_new s l (memberName ts m) (memberVal ts m j) hl hnone
+      simp only [hnone, Option.isSome_none, Bool.false_eq_true, if_false, dok, if_true]
+      have hps := define_ps s l (memberName ts m) (memberVal ts m j)
+      have hlen := define_length s l (memberName ts m) (memberVal ts m j)
+      obtain ⟨i1, i2, i3, i4, i5⟩ := ih (define s l (memberName ts m) (memberVal ts m j)).1
+        (by rw [hps]; exact hd) (by rw [hps]; exact hshape) (by rw [hlen]; exact hl) hnd'
+      refine ⟨i1, by rw [i2, hps], by rw [i3, hlen], ?_, ?_⟩
+      · intro k' hk'
+        simp only [List.map_cons, List.mem_cons, not_or] at hk'
+        rw [i4 k' hk'.2, resolve_define_other s l _ _ l k' hk'.1]
+      · intro x hx
+        rcases List.mem_cons.mp hx with rfl | hx
+        · simp only
+          rw [i4 _ hnotin, dres, hnone]; rfl
+        · rw [i5 x hx]
+          have hne : canon (memberName ts x.1) ≠ canon (memberName ts m) := by
+            intro e; apply hnotin; rw [← e]; exact List.mem_map_of_mem (f := fun m => canon (memberName ts m.1)) hx
+          rw [resolve_define_other s l _ _ l _ hne]
+
 end Pcore.LoaderSeq
